@@ -295,6 +295,7 @@ type evalSetup struct {
 	bs        *realBS
 	log       *captureLogger
 	ev        evaluation.Evaluator
+	reenter   bool // the recorder evaluates the prerequisite it is told about, on the same evaluator
 }
 
 func (s *evalSetup) cur() *realStore {
@@ -429,6 +430,33 @@ func (s *evalSetup) evalOnce(flag *ldmodel.FeatureFlag, ctx ldcontext.Context, r
 				obs.EventsOK = false
 			}
 			obs.Events = append(obs.Events, w)
+			if s.reenter && e.PrerequisiteFlag != nil {
+				// the recorder runs synchronously inside Evaluate: it may itself evaluate — here the
+				// prerequisite it was told about, on the SAME evaluator. The outer evaluation must not
+				// notice (its side channels are restored below), and the answer must be the event's own
+				// result up to the big-segments status (`C09.edge_result_is_standalone`).
+				nFL, nSL := len(s.cur().flagLookups), len(s.cur().segLookups)
+				nQ, nC, nL := 0, 0, 0
+				if s.bs != nil {
+					nQ, nC = len(s.bs.queries), len(s.bs.checks)
+				}
+				if s.log != nil {
+					nL = len(s.log.lines)
+				}
+				inner := dumpResult(s.ev.Evaluate(e.PrerequisiteFlag, ctx, nil))
+				s.cur().flagLookups, s.cur().segLookups = s.cur().flagLookups[:nFL], s.cur().segLookups[:nSL]
+				if s.bs != nil {
+					s.bs.queries, s.bs.checks = s.bs.queries[:nQ], s.bs.checks[:nC]
+				}
+				if s.log != nil {
+					s.log.lines = s.log.lines[:nL]
+				}
+				a, b := inner, w.Result
+				a.Reason.BSS, b.Reason.BSS = nil, nil
+				if canon(a) != canon(b) {
+					obs.EventsOK = false
+				}
+			}
 		}
 	}
 	defer func() {
@@ -474,6 +502,19 @@ func logKeysFor(c *EvalCase) []string {
 func runEval(c *EvalCase) {
 	store := buildStore(&c.Store)
 	flag := c.Flag.build()
+	// when the store holds this very configuration under the flag's key, evaluate the store's own
+	// object half of the time (the flag handed to Evaluate and the flag a lookup returns are then
+	// one pointer: a self-reference test or a memo by identity sees the difference)
+	if sf, ok := store.flags[c.Flag.Key]; ok && hashStr("same/"+c.ID)&1 == 0 {
+		for i := range c.Store.Flags {
+			if c.Store.Flags[i].lookupKey() == c.Flag.Key {
+				if canon(c.Store.Flags[i]) == canon(c.Flag) {
+					flag = sf
+				}
+				break
+			}
+		}
+	}
 	ctx := c.Ctx.build()
 	// the model must see exactly what Go holds
 	form := c.Flag.Form
@@ -499,6 +540,7 @@ func runEval(c *EvalCase) {
 	c.Rx = regexOracle(c)
 	c.Opts.shape = hashStr("shape/" + c.ID)
 	setup := newSetup(&c.Opts, store, c.BS)
+	setup.reenter = hashStr("reenter/"+c.ID)%8 == 0
 	obs := setup.evalOnce(flag, ctx, c.Opts.Rec, logKeysFor(c))
 	c.Go = &obs
 }
@@ -547,6 +589,9 @@ func clausePatterns(cs []WClause, out map[string]bool) {
 	for _, c := range cs {
 		if c.Op == "matches" {
 			for _, v := range c.Vals {
+				if v.K == 'r' && len(v.A) == 1 {
+					v = v.A[0] // an unparsed operand: the oracle answers for its text all the same
+				}
 				if v.K == 's' {
 					out[v.S] = true
 				}
